@@ -631,7 +631,7 @@ def history_cases(draw):
     return {"kind": "history", "envs": envcfgs, "ops": [first, *body], "isolated": False}
 
 
-def pair_histories():
+def pair_histories(quick: bool = False):
     """Two environments (explicit, or the implicit ones of liquid.Template()) that differ in exactly one setting, used in turn."""
     deltas = [("sf", False), ("undef", "strict"), ("undef", "falsy"), ("mode", "lax"), ("extra", False)]
     for implicit in (True, False):
@@ -647,7 +647,9 @@ def pair_histories():
                         ops = [["create", e0], ["parse", e0, tid, 0], ["render", e0, 0, 0], ["create", e1], ["parse", e1, tid, 0],
                                ["render", e0, 0, 1], ["render", e1, 0, 0], ["parse", e0, tid, 1], ["render", e0, 1, 0], ["render", e1, 0, 1]]
                         yield {"kind": "history", "envs": [a, b], "ops": ops, "isolated": False}
-            for sidx in SIBLINGS.get(base, []):
+            for k, sidx in enumerate(SIBLINGS.get(base, [])):
+                if quick and sidx not in ALIASES.get(base, []) and k % 3:
+                    continue  # (quick: the siblings that spell the same joined text, and a third of the others)
                 a = {"delims": base, "mode": "strict", "extra": True}
                 b = dict(a, delims=sidx)
                 if implicit:
@@ -661,7 +663,7 @@ def pair_histories():
 
 def campaign(ctx: core.Ctx, tier: str, shard: int, nshards: int) -> None:
     quick = tier == "quick"
-    for i, case in enumerate(pair_histories()):
+    for i, case in enumerate(pair_histories(quick)):
         if i % nshards == shard:
             ctx.run(case, enumerated=True)
     core.drive(rewrite_cases(), ctx.run, n=(3200 if quick else 80000) // nshards, seed=core.sub_seed(ctx.seed, shard))
@@ -674,7 +676,8 @@ def campaign(ctx: core.Ctx, tier: str, shard: int, nshards: int) -> None:
         # shared with it), the others with a cache-cleared re-run in this process
         count[0] += 1
         sib = any(a["delims"] in SIBLINGS.get(b["delims"], ()) for a in case["envs"] for b in case["envs"])
-        if count[0] % 16 == 1 or sib:
+        alias = any(a["delims"] in ALIASES.get(b["delims"], ()) for a in case["envs"] for b in case["envs"])
+        if count[0] % 16 == 1 or (alias and count[0] % 3 == 0) or (sib and count[0] % 8 == 0):
             # (delimiter sets one boundary shift apart: a memo keyed by joined strings need not be a functools cache)
             case = dict(case, isolated=True)
         ctx.run(case)
